@@ -198,9 +198,10 @@ def merge(programs, run_recs):
         for k, cfg in enumerate(p["runs"]):
             r = by.get(p["id"], {}).get(k + 1)
             if r is None or "err" in r:
-                runs.append({"dom": cfg["dom"], "err": 1, "why": (r or {}).get("err", "missing"), "pre": [], "post": [], "checks": []})
+                runs.append({"dom": cfg["dom"], "err": 1, "judgeinv": 0, "why": (r or {}).get("err", "missing"), "pre": [], "post": [], "checks": []})
             else:
-                runs.append({"dom": cfg["dom"], "err": 0, "pre": r["pre"], "post": r["post"], "checks": r["checks"],
+                runs.append({"dom": cfg["dom"], "err": 0, "judgeinv": 0 if cfg.get("use_refined") else 1,
+                             "pre": r["pre"], "post": r["post"], "checks": r["checks"],
                              "cfg": {k2: v2 for k2, v2 in cfg.items() if k2 != "dom"}})
         q["runs"] = runs
         out.append(q)
